@@ -32,6 +32,8 @@ Blocks ==
   [] Menu = "spine-layer" ->
     {R(<< <<"a">> >>), [op |-> "atrule", name |-> "layer", params |-> "base"], [op |-> "atrule", name |-> "layer", params |-> "other"],
      [op |-> "atroot", q |-> "without: layer"], [op |-> "atroot", q |-> "without: all"], [op |-> "atroot", q |-> ""]}
+  [] Menu = "nprops" ->       \* nested properties inside nested properties, declarations before and after an inner block
+    {R(<< <<"a">> >>), [op |-> "nprop", name |-> "font"], [op |-> "nprop", name |-> "b"]}
   [] OTHER -> {}
 Simples == {D("x", "1"), D("y", "2")}
 
@@ -50,8 +52,9 @@ SpineOkOpen(ins) == ~Spine \/ (NEnds = 0 /\ NDecls = 0) \/ (NEnds > 0 /\ NDecls 
 SpineOkClose == ~Spine \/ NDecls > 0
 
 AllowedB(ins) ==
-  /\ (ins.op = "nprop" => DeclOk /\ (open # <<>> => open[Len(open)] # "nprop"))
-  /\ (open # <<>> /\ open[Len(open)] = "nprop" => FALSE)                       \* only declarations inside a nested property
+  /\ (ins.op = "nprop" => DeclOk /\ (open # <<>> => (open[Len(open)] # "nprop" \/ Menu = "nprops")))
+  /\ (open # <<>> /\ open[Len(open)] = "nprop" => (Menu = "nprops" /\ ins.op = "nprop"))   \* only declarations (and, in the nprops menu,
+                                                                                         \* further nested properties) inside a nested property
   /\ (ins.op = "atroot" => InRule)                                               \* @at-root is interesting inside a rule
   /\ (ins.op = "media" /\ ins.q = "(a)" => "media" \in Range(open))              \* feature-only query only after a type query
   /\ (ins.op = "media" /\ ins.q = "screen" => "media" \notin Range(open))
